@@ -20,7 +20,7 @@ RULE = ("histories over {place(content form, value), rest(value), bar + content,
         "histories of up to 60 steps, (d) meter acceptance over beat units/counts. The bar is compared with an exact Fraction "
         "model after every step. Non-trivial: a history that reaches exact capacity, contains a refusal, or places after a "
         "remove-last; a fill with > 1 part; a meter with a non-integer or non-power-of-two unit."
-        " Also: constructed overflows by 1-5 vocabulary quanta; 'beat closer' histories (tuplet-heavy prefix, values placed until exactly one or two beats are left, then '+'); 'churn' histories (place-and-remove cycles on tuplet beats, then an exact refill); emptying the same Bar and giving it a new meter; place_notes_at with the beat written as an int, including whole-number beats where no entry starts; every ordered pair of meters applied one after the other to one Bar object (fresh, or used and emptied) followed by '+' and an exact close; empty lists and empty containers as content; bars filled to within 1/1344 of their length (full by the stated tolerance), then remove-last and exact refills. The identity current beat + space left = length is asserted in every meter, the unbounded one (length 0) included.")
+        " Also: constructed overflows by 1-5 vocabulary quanta; 'beat closer' histories (tuplet-heavy prefix, values placed until exactly one or two beats are left, then '+'); 'churn' histories (place-and-remove cycles on tuplet beats, then an exact refill); emptying the same Bar and giving it a new meter; place_notes_at with the beat written as an int, including whole-number beats where no entry starts; every ordered pair of meters applied one after the other to one Bar object (fresh, or used and emptied) followed by '+' and an exact close; empty lists and empty containers as content; bars filled to within 1/1344 of their length (full by the stated tolerance), then remove-last and exact refills. The identity current beat + space left = length is asserted in every meter, the unbounded one (length 0) included. Meters with beat units 256..4096 filled beat by beat with + and place_notes to exact capacity; fresh and emptied bars of every accepted meter are not full.")
 ASSUMPTIONS = ["note values handed to mingus are ints when integral, else the correctly rounded float of the vocabulary rational",
                "a refused meter is any raised exception with the bar unchanged (statement does not name the error)",
                "float clauses compared with |.| <= 1e-9; vocabulary quantum is 1/215040 ~ 4.7e-6"]
